@@ -3,6 +3,7 @@ pub mod c01;
 pub mod c02;
 pub mod c05;
 pub mod c06;
+pub mod c10;
 pub mod c03;
 pub mod c04;
 
@@ -12,6 +13,7 @@ pub fn run(ctx: &Ctx) -> bool {
         "C02" => c02::run(ctx),
         "C05" => c05::run(ctx),
         "C06" => c06::run(ctx),
+        "C10" => c10::run(ctx),
         "C03" => c03::run(ctx),
         "C04" => c04::run(ctx),
         _ => return false,
